@@ -51,6 +51,9 @@ pub struct Config {
     pub method_rename: BTreeMap<String, String>,
     /// method calls turned into free function calls: `x.name(args)` -> `new_name(x, args)`
     pub method_to_fn: BTreeMap<String, String>,
+    /// R21: an unsizing coercion `&T -> &dyn Trait` at a call site is made explicit: `callee(.., arg_i, ..)` -> `callee(.., wrapper(arg_i), ..)`
+    /// (callee name -> list of (argument index, wrapper function)); the wrapper is a method of the closed dispatch enum in the unit
+    pub wrap_args: BTreeMap<String, Vec<(usize, String)>>,
     /// macros to drop entirely (statement position), e.g. "log::info"
     pub drop_macros: Vec<String>,
     /// idents of let-bindings / params that shadow and must be alpha-renamed (R15): name -> new name, applied from the n-th `let` on
@@ -87,7 +90,7 @@ impl Config {
                 for e in tm {
                     let from = e[0].as_str().ok_or("typemap: bad entry")?;
                     let to = e[1].as_str().ok_or("typemap: bad entry")?;
-                    if from.contains('<') {
+                    if from.contains('<') || from.starts_with('&') {
                         c.typemap_exact.push((erase_lifetimes(&from.replace(' ', "")), to.to_string()));
                     } else {
                         c.typemap.push((from.split("::").map(|s| s.to_string()).collect(), to.to_string()));
@@ -108,6 +111,15 @@ impl Config {
             if let Some(m) = src["method_rename"].as_object() {
                 for (k, v) in m {
                     c.method_rename.insert(k.clone(), v.as_str().unwrap_or("").to_string());
+                }
+            }
+            if let Some(m) = src["wrap_args"].as_object() {
+                for (k, v) in m {
+                    let mut l = vec![];
+                    for pair in v.as_array().cloned().unwrap_or_default() {
+                        l.push((pair[0].as_u64().unwrap_or(0) as usize, pair[1].as_str().unwrap_or("").to_string()));
+                    }
+                    c.wrap_args.insert(k.clone(), l);
                 }
             }
             if let Some(m) = src["method_to_fn"].as_object() {
@@ -752,6 +764,20 @@ impl<'a> VisitMut for MethodRenamePass<'a> {
                 }
             }
         }
+        if let syn::Expr::Call(c) = e {
+            if let Some(name) = callee_name(&syn::Expr::Call(c.clone())) {
+                if let Some(ws) = self.cfg.wrap_args.get(&name) {
+                    for (i, w) in ws {
+                        if let Some(a) = c.args.iter_mut().nth(*i) {
+                            let f = syn::Ident::new(w, Span::call_site());
+                            let old = a.clone();
+                            *a = syn::parse_quote!(#f(#old));
+                            bump(self.counts, "R21.explicit_dyn_coercion");
+                        }
+                    }
+                }
+            }
+        }
         if let syn::Expr::MethodCall(mc) = e {
             if let Some(n) = self.cfg.method_to_fn.get(&mc.method.to_string()) {
                 let f = syn::Ident::new(n, Span::call_site());
@@ -1049,6 +1075,7 @@ impl<'a> VisitMut for OptPass<'a> {
                                 syn::parse_quote!(match #recv { Some(#pat) => Some(#body), None => None })
                             }
                             ("unwrap_or_else", 0) => syn::parse_quote!(match #recv { Some(__v) => __v, None => #body }),
+                            ("ok_or_else", 0) => syn::parse_quote!(match #recv { Some(__v) => Ok(__v), None => Err(#body) }),
                             _ => {
                                 self.err = Some(format!("bad recipe: opt_closures ordinal {} is the argument of `{}`", k, m));
                                 return;
@@ -2174,7 +2201,7 @@ pub fn apply_to_fn(
         p.visit_item_fn_mut(f);
     }
     // method renames
-    if !cfg.method_rename.is_empty() || !cfg.method_to_fn.is_empty() || !cfg.vec_fns.is_empty() {
+    if !cfg.method_rename.is_empty() || !cfg.method_to_fn.is_empty() || !cfg.vec_fns.is_empty() || !cfg.wrap_args.is_empty() {
         let mut p = MethodRenamePass { cfg, counts };
         p.visit_item_fn_mut(f);
     }
